@@ -277,7 +277,14 @@ func (vc *VC) call(fr *Frame, st *State, ins ssa.Instruction, cc *ssa.CallCommon
 	}
 	// 4. auto-inline small helpers of this module
 	if callee != nil && fr.depth < maxInlineDepth && vc.autoInline(callee) && !vc.onStack(fr, callee) {
-		setRes(vc.inlineCall(fr, st, callee, args, nil, pos))
+		var binds []Val
+		if mc, ok := cc.Value.(*ssa.MakeClosure); ok {
+			// direct call (or defer) of a function literal: its free variables are the closure's bindings
+			for _, b := range mc.Bindings {
+				binds = append(binds, vc.operand(fr, st, b))
+			}
+		}
+		setRes(vc.inlineCall(fr, st, callee, args, binds, pos))
 		return
 	}
 	// 5. havoc
@@ -665,7 +672,37 @@ func (vc *VC) deferCall(fr *Frame, st *State, d *ssa.Defer) {
 		vc.note("deferred call " + full + " ignored by contract option")
 		return
 	}
-	vc.errorf("%s: defer of %s outside the subset", funcKey(fr.fn), full)
+	if vc.loopNest > 0 {
+		vc.errorf("%s: defer of %s inside a loop is outside the subset", funcKey(fr.fn), full)
+		return
+	}
+	for _, r := range fr.defers {
+		if r.instr == d {
+			return
+		}
+	}
+	fr.defers = append(fr.defers, deferRec{instr: d, guard: st.reach})
+}
+
+// runDefers executes the recorded deferred calls, last first, each under the condition that its defer statement
+// was executed on the path taken (unconditionally when the statement dominates the return).
+func (vc *VC) runDefers(fr *Frame, st *State, rd *ssa.RunDefers) {
+	for i := len(fr.defers) - 1; i >= 0; i-- {
+		d := fr.defers[i]
+		if d.instr.Block().Dominates(rd.Block()) {
+			vc.call(fr, st, d.instr, &d.instr.Call, nil)
+			continue
+		}
+		a := st.clone()
+		a.reach = vc.define("R!defer", tAnd(st.reach, d.guard))
+		vc.call(fr, a, d.instr, &d.instr.Call, nil)
+		b := st.clone()
+		b.reach = vc.define("R!nodefer", tAnd(st.reach, tNot(d.guard)))
+		conds := []Term{a.reach, b.reach}
+		sts := []*State{a, b}
+		st.heap = vc.mergeHeaps(fr, nil, conds, func(i int) *Heap { return sts[i].heap }, 2)
+		st.top = vc.define("top!d", tIte(a.reach, a.top, b.top))
+	}
 }
 
 // ---------------------------------------------------------------- builtins
